@@ -149,6 +149,35 @@ func direction(got, want []crow) string {
 	return "order"
 }
 
+// errorClass reduces an error text to a stable slug (digits, addresses and stacks dropped).
+func errorClass(err error) string {
+	s := err.Error()
+	if i := strings.Index(s, "panic recovered:"); i >= 0 {
+		s = "panic " + s[i+len("panic recovered:"):]
+	}
+	if i := strings.IndexByte(s, '\n'); i >= 0 {
+		s = s[:i]
+	}
+	var b strings.Builder
+	words := 0
+	prevDash := true
+	for _, r := range strings.ToLower(s) {
+		switch {
+		case r >= 'a' && r <= 'z':
+			b.WriteRune(r)
+			prevDash = false
+		case !prevDash:
+			words++
+			if words >= 9 {
+				return strings.TrimRight(b.String(), "-")
+			}
+			b.WriteByte('-')
+			prevDash = true
+		}
+	}
+	return strings.TrimRight(b.String(), "-")
+}
+
 func sameRows(a, b []crow) bool {
 	if len(a) != len(b) {
 		return false
@@ -451,9 +480,76 @@ func (w *c26worker) judge(caseName string, q *query) {
 	if q.Left {
 		op = "left_" + op
 	}
-	// key layout: the defect-discriminating parts first, so that known-finding patterns can end in '*'
+	// cause attributes a divergence of |got| to a defect class from features of the query, the plan and the answer, so
+	// that one plan/type/shape key does not lump different root causes. It never decides a verdict.
+	cause := func(got []crow, kvIter string, lines []string) string {
+		if strings.HasSuffix(kvIter, "countAggKvIter") {
+			for _, ln := range lines {
+				if strings.Contains(ln, "IndexedTableAccess(") {
+					// attribute to the listed class only if the answer is exactly COUNT(*) under the same filter (= the
+					// NULLs of the counted column were counted); anything else stays a separate key
+					if len(q.Select) == 1 && q.Select[0].Agg == "count" {
+						q2 := *q
+						q2.Select = []selExpr{{Agg: "count*"}}
+						if v, ok := q2.eval(); !ok {
+							return "kv-count-over-index-undecided"
+						} else if sameRows(got, v) {
+							return "kv-count-over-index-counts-nulls"
+						}
+					}
+					return "kv-count-over-index-other"
+				}
+			}
+			return "kv-count"
+		}
+		if v, ok := q.evalNullCmpVariant(); ok && sameRows(got, v) {
+			return "null-cmp" // exactly the answer obtained when NULL >= x / NULL <= x are TRUE
+		}
+		planText := strings.Join(lines, "\n")
+		if strings.Contains(planText, "LookupJoin") && len(q.Tables) > 1 {
+			for _, e := range q.On {
+				if q.schema.Tables[q.Tables[0]].Cols[e.LC].Kind == kDec {
+					return "decimal-lookup-key"
+				}
+			}
+		}
+		if strings.Contains(planText, "LeftOuterMergeJoin") && len(q.Tables) > 1 {
+			for _, e := range q.On { // the planner picks one of the ON equalities as the merge comparison
+				nulls := 0
+				for _, row := range q.tableRows(0) {
+					if row[e.LC].Null {
+						nulls++
+					}
+				}
+				if nulls >= 2 {
+					return "left-merge-null-keys"
+				}
+			}
+		}
+		if strings.Contains(planText, "LeftOuterMergeJoin") && strings.Contains(planText, "─ sel: ") {
+			return "left-merge-residual-filter"
+		}
+		if q.hasCollationEqualInList() {
+			return "ci-in-list-dup"
+		}
+		if q.hasNegativeLiteralOnUnsigned() {
+			return "neg-literal-unsigned"
+		}
+		for i, ln := range lines {
+			if strings.Contains(ln, "MergeJoin") {
+				for _, l2 := range lines[i+1:] {
+					if strings.Contains(l2, "─ Filter") {
+						return "filtered-merge-side"
+					}
+				}
+			}
+		}
+		return "other"
+	}
+	// key layout: the defect-discriminating parts first, so that known-finding patterns can end in '*'; the attributed
+	// cause is the last component
 	key := func(why string, want []crow) string {
-		return "c26/indexed/" + op + "/" + direction(r1.rows, want) + "/" + sig + "/" + q.Kind + "/" + why
+		return "c26/indexed/" + op + "/" + direction(r1.rows, want) + "/" + sig + "/" + q.Kind + "/" + why + "/" + cause(r1.rows, kv, plan.Lines)
 	}
 	// twinVerdict: the twin query is itself a read query on dolt tables (keyless, unindexed). It is judged against the
 	// SAME query on the reference engine's own keyless unindexed twins (same physical design on both sides), so that a
@@ -477,11 +573,20 @@ func (w *c26worker) judge(caseName string, q *query) {
 			w.c.Note("reference-divergence (dolt twin == model != reference twin): " + truncate(q.sql(vTwin), 400))
 			return
 		}
+		// the reference's unindexed answer must itself be corroborated (by the model where it decides, else by the
+		// reference's own indexed answer): a reference that is wrong on this plan is suspect, not an oracle
+		if (has5 && !sameRows(r4u.rows, r5)) || (!has5 && (r4.err != nil || !sameRows(r4u.rows, r4.rows))) {
+			cnt.add("reference_twin_unreliable", 1)
+			w.c.Note("reference-twin-unreliable (reference unindexed answer not corroborated; dolt twin differs too): " + truncate(q.sql(vTwin), 400))
+			return
+		}
 		cnt.add("twin_divergence", 1)
 		fill()
 		wit["judged_query"] = q.sql(vTwin)
 		wit["kvexec_iter_twin"] = kvTwin
-		w.l.violation("c26/twin/"+kvTwin+"/"+direction(r3.rows, r4u.rows)+"/"+sig+"/"+q.Kind, "dolt's answer on keyless unindexed tables differs from the reference engine's answer on its own keyless unindexed copy of the same data: "+firstDiff(r3.rows, r4u.rows), wit)
+		twinPlan := readPlan(w.xd, q.sql(vTwin))
+		wit["twin_plan"] = twinPlan.Lines
+		w.l.violation("c26/twin/"+kvTwin+"/"+direction(r3.rows, r4u.rows)+"/"+sig+"/"+q.Kind+"/"+twinPlan.op()+"/"+cause(r3.rows, kvTwin, twinPlan.Lines), "dolt's answer on keyless unindexed tables differs from the reference engine's answer on its own keyless unindexed copy of the same data: "+firstDiff(r3.rows, r4u.rows), wit)
 	}
 	defer twinVerdict()
 
@@ -496,7 +601,7 @@ func (w *c26worker) judge(caseName string, q *query) {
 	if r1.err != nil {
 		if r3.err == nil && r4.err == nil {
 			fill()
-			w.l.violation("c26/indexed/"+op+"/error/"+sig+"/"+q.Kind, "dolt fails on the indexed tables where the unindexed twin and the reference answer: "+truncate(r1.err.Error(), 300), wit)
+			w.l.violation("c26/indexed/"+op+"/error/"+sig+"/"+q.Kind+"/"+errorClass(r1.err), "dolt fails on the indexed tables where the unindexed twin and the reference answer: "+truncate(r1.err.Error(), 300), wit)
 			return
 		}
 		cnt.add("errors_in_every_voice", 1)
